@@ -395,6 +395,27 @@ pub fn gen_byte_case(seed: u64, label: &str, index: u64, default_config_only: bo
             let names: &[&str] = if r.chance(1, 2) { &["a"] } else { &["a", "b", "c:d", "self", "a-b"] };
             (gen::ladder(names, d, &mut r, close), format!("ladder-{}", d))
         }
+        15 if r.chance(1, 40) => {
+            // wide / long documents up to ~64 KiB: many siblings, long names, long text
+            let n = r.range(200, 2500);
+            let mut s = String::from("<root>");
+            let names = ["a", "b", "c", "item", "p:x"];
+            for i in 0..n {
+                let nm = *r.pick(&names);
+                if i % 7 == 0 {
+                    s.push_str(&format!("<{} k=\"{}\">text {}</{}>", nm, i, i, nm));
+                } else {
+                    s.push_str(&format!("<{}/>", nm));
+                }
+            }
+            s.push_str("</root>");
+            let mut v = s.into_bytes();
+            v.truncate(65536);
+            if r.chance(1, 2) {
+                v = gen::mutate_bytes(&v, &mut r);
+            }
+            (v, "wide".into())
+        }
         _ => (text.as_bytes().to_vec(), "valid".into()),
     };
     let base_hex = if r.chance(1, 3) {
